@@ -18,6 +18,12 @@ def Array(array: Union[np.ndarray, csc_array, list, Number],
     if dim < 2 and sparse:
         raise ValueError(f"Cannot create sparse matrix with dim: {dim}")
 
+    if np.issubdtype(dtype, np.integer):
+        # astype(int) truncates: an index parameter 28.999999999999996 (0.29 * 100) became 28 and d[1.5] was read as d[1]
+        values = array.data if isinstance(array, csc_array) else np.asarray(array)
+        if values.dtype.kind in 'fc' and not (np.all(np.isfinite(values)) and np.all(values == np.round(values))):
+            raise ValueError(f"Non-integral values {array} cannot be stored as {np.dtype(dtype)}")
+
     # initialize and check dtype in case of non-int/float dtypes
     if isinstance(array, Number):
         temp = np.array(array, dtype=dtype)
